@@ -1,10 +1,9 @@
-"""C03 - thermodynamic fields returned together satisfy the declared EOS."""
 from .. import scans
-from .common import CLOSED_HYDRO, generic_replay
+from .common import fams, generic_replay, PATTERNS
 
 
 def run(tier):
-    return scans.scan_check("C03", ("EOS.",), {"EOS"}, dict(CLOSED_HYDRO), tier)
+    return scans.scan_check("C03", ("EOS.",), {"EOS"}, fams({'EOS'}), tier, require_patterns=PATTERNS)
 
 
 def replay(path):
